@@ -1,4 +1,737 @@
-pub fn run(_args: &vcommon::Args) {
-    eprintln!("C13 not implemented yet");
-    std::process::exit(3);
+//! C13 — symmetric hash join against a nested-loop relational join.
+//!
+//! (a) incremental `SymmetricHashJoin` over scripted inputs (independent scripts with Pendings, and
+//!     *gated* inputs that realise every global arrival interleaving),
+//! (b) the `symmetric_hash_join(is_new_tick = true)` drain-then-`NewTickJoinIter` path on the same inputs,
+//! (c) multi-tick histories with persisted (`'static`) or cleared (`'tick`) `&mut` state per side,
+//!     replaying and incremental paths, set / multiset / mixed states.
+
+use std::cell::RefCell;
+use std::collections::VecDeque;
+use std::pin::{Pin, pin};
+use std::rc::Rc;
+use std::task::{Context as TaskCx, Waker};
+
+use dfir_pipes::pull::{self, FusedPull, HalfJoinState, HalfMultisetJoinState, HalfSetJoinState, Pull, PullStep};
+use dfir_pipes::{Context, Yes};
+use vcommon::{Args, Reporter, Rng, Tier, Value, catch, hash_of, json};
+
+use crate::drive::{drive_future, script_json};
+use crate::script::{Ev, ScriptPull, Shared, items_of};
+use crate::{all_scripts_over, parse_script};
+
+/// The reporter's set of distinct hashes is capped (memory); the true total is in the counters.
+const DISTINCT_CAP: usize = 2_000_000;
+
+type KV = (i32, i32);
+type Out3 = (i32, i32, i32);
+
+/// Item code -> (key, value).
+fn conv(x: i32) -> KV {
+    (x / 100, x % 100)
+}
+fn kvs(s: &[Ev]) -> Vec<KV> {
+    items_of(s).into_iter().map(conv).collect()
+}
+
+// ---------------------------------------------------------------------------------------------
+// Oracle: nested loops
+
+fn absorb(state: &mut Vec<KV>, new: &[KV], set: bool) {
+    for x in new {
+        if !set || !state.contains(x) {
+            state.push(*x);
+        }
+    }
+}
+
+fn join(l: &[KV], r: &[KV]) -> Vec<Out3> {
+    let mut out = vec![];
+    for a in l {
+        for b in r {
+            if a.0 == b.0 {
+                out.push((a.0, a.1, b.1));
+            }
+        }
+    }
+    out.sort();
+    out
+}
+
+/// Sorted multiset difference a - b.
+fn minus(a: &[Out3], b: &[Out3]) -> Vec<Out3> {
+    let mut out = vec![];
+    let (mut i, mut j) = (0, 0);
+    while i < a.len() {
+        if j >= b.len() || a[i] < b[j] {
+            out.push(a[i]);
+            i += 1;
+        } else if a[i] == b[j] {
+            i += 1;
+            j += 1;
+        } else {
+            j += 1;
+        }
+    }
+    out
+}
+
+fn cls(lset: bool, rset: bool) -> &'static str {
+    match (lset, rset) {
+        (true, true) => "set-set",
+        (false, false) => "multi-multi",
+        (true, false) => "set-multi",
+        (false, true) => "multi-set",
+    }
+}
+
+// ---------------------------------------------------------------------------------------------
+// Gated inputs: one global arrival schedule shared by both sides
+
+#[derive(Clone, Copy, PartialEq, Eq, Hash, Debug)]
+enum GEv {
+    It(u8, i32),
+    P,
+}
+
+struct GatePull {
+    side: u8,
+    q: Rc<RefCell<VecDeque<GEv>>>,
+    sh: Rc<Shared>,
+}
+
+impl Pull for GatePull {
+    type Ctx<'ctx> = ();
+    type Item = KV;
+    type Meta = ();
+    type CanPend = Yes;
+    type CanEnd = Yes;
+    fn pull(self: Pin<&mut Self>, _ctx: &mut ()) -> PullStep<KV, (), Yes, Yes> {
+        let mut q = self.q.borrow_mut();
+        match q.front().copied() {
+            Some(GEv::It(s, x)) if s == self.side => {
+                q.pop_front();
+                PullStep::Ready(conv(x), ())
+            }
+            Some(GEv::P) => {
+                q.pop_front();
+                self.sh.bump_pend();
+                PullStep::Pending(Yes)
+            }
+            Some(GEv::It(..)) if q.iter().any(|e| matches!(e, GEv::It(s, _) if *s == self.side)) => {
+                self.sh.bump_pend();
+                PullStep::Pending(Yes)
+            }
+            _ => PullStep::Ended(Yes),
+        }
+    }
+    fn size_hint(&self) -> (usize, Option<usize>) {
+        let n = self.q.borrow().iter().filter(|e| matches!(e, GEv::It(s, _) if *s == self.side)).count();
+        (n, Some(n))
+    }
+}
+impl FusedPull for GatePull {}
+
+fn gate_pair(sh: &Rc<Shared>, global: &[GEv]) -> (GatePull, GatePull) {
+    let q = Rc::new(RefCell::new(global.iter().copied().collect::<VecDeque<_>>()));
+    (GatePull { side: 0, q: q.clone(), sh: sh.clone() }, GatePull { side: 1, q, sh: sh.clone() })
+}
+
+/// What one side sees of a global schedule, as an independent script (other side's arrivals and stalls
+/// become Pendings).
+fn side_script(global: &[GEv], side: u8) -> Vec<Ev> {
+    let mut s: Vec<Ev> = global.iter().map(|e| match e { GEv::It(sd, x) if *sd == side => Ev::It(*x), _ => Ev::Pend }).collect();
+    while matches!(s.last(), Some(Ev::Pend)) {
+        s.pop();
+    }
+    s
+}
+
+fn global_json(g: &[GEv]) -> Value {
+    Value::Array(g.iter().map(|e| match e { GEv::It(s, x) => json!([s, x]), GEv::P => json!("P") }).collect())
+}
+fn parse_global(v: &Value) -> Vec<GEv> {
+    v.as_array()
+        .map(|a| a.iter().map(|e| if e.is_string() { GEv::P } else { GEv::It(e[0].as_u64().unwrap() as u8, e[1].as_i64().unwrap() as i32) }).collect())
+        .unwrap_or_default()
+}
+
+// ---------------------------------------------------------------------------------------------
+// Observation
+
+#[derive(Default, Debug)]
+struct Obs {
+    out: Vec<Out3>,
+    cap_hit: bool,
+    spurious: Option<usize>,
+    pulls: usize,
+}
+
+fn drive_join<P>(p: P, sh: &Shared, cap: usize) -> Obs
+where
+    P: Pull<Item = (i32, (i32, i32))>,
+{
+    let mut p = pin!(p);
+    let mut cx = TaskCx::from_waker(Waker::noop());
+    let mut o = Obs::default();
+    loop {
+        if o.pulls >= cap {
+            o.cap_hit = true;
+            return o;
+        }
+        let before = sh.pend.get();
+        let ctx = <P::Ctx<'_> as Context<'_>>::from_task(&mut cx);
+        let st = p.as_mut().pull(ctx);
+        o.pulls += 1;
+        match st {
+            PullStep::Ready((k, (v1, v2)), _) => o.out.push((k, v1, v2)),
+            PullStep::Pending(_) => {
+                if sh.pend.get() == before && o.spurious.is_none() {
+                    o.spurious = Some(o.pulls - 1);
+                }
+            }
+            PullStep::Ended(_) => return o,
+        }
+    }
+}
+
+fn run_incremental_owned<L, R, LS, RS>(l: L, r: R, sh: &Shared, cap: usize) -> Obs
+where
+    L: FusedPull<Item = KV, Meta = ()>,
+    R: FusedPull<Item = KV, Meta = ()>,
+    LS: HalfJoinState<i32, i32, i32> + Default,
+    RS: HalfJoinState<i32, i32, i32> + Default,
+{
+    drive_join(l.symmetric_hash_join(r, LS::default(), RS::default()), sh, cap)
+}
+
+/// `symmetric_hash_join(.., is_new_tick)` on external state: await the constructor future, then pull.
+fn run_fn_path<'a, L, R, LS, RS>(l: L, r: R, ls: &'a mut LS, rs: &'a mut RS, new_tick: bool, sh: &Shared, cap: usize) -> Obs
+where
+    L: 'a + FusedPull<Item = KV, Meta = ()>,
+    R: 'a + FusedPull<Item = KV, Meta = ()>,
+    LS: HalfJoinState<i32, i32, i32>,
+    RS: HalfJoinState<i32, i32, i32>,
+{
+    let (polls, out) = drive_future(pull::symmetric_hash_join(l, r, ls, rs, new_tick), sh, cap);
+    let spurious = polls.iter().position(|(ready, d)| !ready && *d == 0);
+    match out {
+        None => Obs { cap_hit: true, pulls: polls.len(), spurious, ..Obs::default() },
+        Some(p) => {
+            let mut o = drive_join(p, sh, cap);
+            o.spurious = spurious.or(o.spurious);
+            o
+        }
+    }
+}
+
+fn run_state_method<L, R, LS, RS>(l: L, r: R, ls: &mut LS, rs: &mut RS, sh: &Shared, cap: usize) -> Obs
+where
+    L: FusedPull<Item = KV, Meta = ()>,
+    R: FusedPull<Item = KV, Meta = ()>,
+    LS: HalfJoinState<i32, i32, i32>,
+    RS: HalfJoinState<i32, i32, i32>,
+{
+    drive_join(l.symmetric_hash_join_state(r, ls, rs), sh, cap)
+}
+
+// ---------------------------------------------------------------------------------------------
+// Judging
+
+struct J<'a> {
+    rep: &'a mut Reporter,
+}
+
+impl J<'_> {
+    fn compare(&mut self, site: &str, class: &str, o: &Obs, exp: &[Out3], case: &dyn Fn() -> Value) -> bool {
+        self.rep.eval();
+        if o.cap_hit {
+            self.rep.violation(&format!("C13|{site}|step-cap-reached|{class}"), &format!("no Ended within {} pulls; emitted so far {:?}", o.pulls, o.out), case());
+            return false;
+        }
+        if let Some(i) = o.spurious {
+            self.rep.violation(&format!("C13|{site}|spurious-pending|{class}"), &format!("pull/poll #{i} answered Pending although no input did"), case());
+        }
+        let mut got = o.out.clone();
+        got.sort();
+        if got == exp {
+            return true;
+        }
+        let missing = minus(exp, &got);
+        let extra = minus(&got, exp);
+        let kind = match (missing.is_empty(), extra.is_empty()) {
+            (false, true) => "pairs-missing",
+            (true, false) => "pairs-repeated-or-extra",
+            _ => "pairs-differ",
+        };
+        self.rep.violation(
+            &format!("C13|{site}|{kind}|{class}"),
+            &format!("expected {exp:?}; emitted (in order) {:?}; missing {missing:?}; extra {extra:?}", o.out),
+            case(),
+        );
+        false
+    }
+}
+
+fn nontrivial_join(l: &[KV], r: &[KV], exp: &[Out3]) -> bool {
+    // a matching key that has >= 2 arrivals on one side: buffering of further matches / dedup matters
+    !exp.is_empty()
+        && exp.iter().any(|(k, _, _)| l.iter().filter(|x| x.0 == *k).count() >= 2 || r.iter().filter(|x| x.0 == *k).count() >= 2)
+}
+
+// ---------------------------------------------------------------------------------------------
+// (a) + (b): one tick, fresh state
+
+struct Single<'a> {
+    fam: &'static str,
+    l: &'a [Ev],
+    r: &'a [Ev],
+    global: Option<&'a [GEv]>,
+    lset: bool,
+    rset: bool,
+}
+
+impl Single<'_> {
+    fn json(&self) -> Value {
+        json!({"engine":"mon_pull","prop":"C13","family":self.fam,"lset":self.lset,"rset":self.rset,
+               "l":script_json(self.l),"r":script_json(self.r),
+               "global": self.global.map(global_json).unwrap_or(Value::Null)})
+    }
+}
+
+fn check_single(rep: &mut Reporter, c: &Single) {
+    match (c.lset, c.rset) {
+        (true, true) => check_single_t::<HalfSetJoinState<i32, i32, i32>, HalfSetJoinState<i32, i32, i32>>(rep, c),
+        (false, false) => check_single_t::<HalfMultisetJoinState<i32, i32, i32>, HalfMultisetJoinState<i32, i32, i32>>(rep, c),
+        (true, false) => check_single_t::<HalfSetJoinState<i32, i32, i32>, HalfMultisetJoinState<i32, i32, i32>>(rep, c),
+        (false, true) => check_single_t::<HalfMultisetJoinState<i32, i32, i32>, HalfSetJoinState<i32, i32, i32>>(rep, c),
+    }
+}
+
+fn check_single_t<LS, RS>(rep: &mut Reporter, c: &Single)
+where
+    LS: HalfJoinState<i32, i32, i32> + Default,
+    RS: HalfJoinState<i32, i32, i32> + Default,
+{
+    let (lk, rk) = (kvs(c.l), kvs(c.r));
+    let (mut a, mut b) = (vec![], vec![]);
+    absorb(&mut a, &lk, c.lset);
+    absorb(&mut b, &rk, c.rset);
+    let exp = join(&a, &b);
+    let class = cls(c.lset, c.rset);
+    let n_ev = c.l.len() + c.r.len() + c.global.map_or(0, |g| 2 * g.len());
+    let cap = 3 * (n_ev.max(exp.len()) + n_ev) + 16;
+    let case = || c.json();
+    if nontrivial_join(&lk, &rk, &exp) {
+        if rep.distinct_count() < DISTINCT_CAP {
+            rep.nontrivial(hash_of(&(c.fam, c.l, c.r, c.global, c.lset, c.rset)));
+        }
+        rep.count("nontrivial_cases_total");
+        rep.sample(|| c.json());
+    }
+    rep.count(c.fam);
+
+    // (a) incremental
+    let res = catch(|| {
+        let sh = Shared::new(&[]);
+        match c.global {
+            Some(g) => {
+                let (l, r) = gate_pair(&sh, g);
+                run_incremental_owned::<_, _, LS, RS>(l, r, &sh, cap)
+            }
+            None => {
+                let l = ScriptPull::<KV, true>::new(&sh, 0, c.l, 0, conv);
+                let r = ScriptPull::<KV, true>::new(&sh, 1, c.r, 0, conv);
+                run_incremental_owned::<_, _, LS, RS>(l, r, &sh, cap)
+            }
+        }
+    });
+    let inc = match res {
+        Ok(o) => {
+            J { rep: &mut *rep }.compare("incremental", class, &o, &exp, &case);
+            Some(o)
+        }
+        Err(m) => {
+            rep.eval();
+            rep.violation(&format!("C13|incremental|panic|{class}"), &m, case());
+            None
+        }
+    };
+
+    // (b) new-tick path on the same inputs (always independent scripts: the drain finishes one side first)
+    let res = catch(|| {
+        let sh = Shared::new(&[]);
+        let l = ScriptPull::<KV, true>::new(&sh, 0, c.l, 0, conv);
+        let r = ScriptPull::<KV, true>::new(&sh, 1, c.r, 0, conv);
+        let (mut ls, mut rs) = (LS::default(), RS::default());
+        run_fn_path(l, r, &mut ls, &mut rs, true, &sh, cap)
+    });
+    match res {
+        Ok(o) => {
+            J { rep: &mut *rep }.compare("new-tick", class, &o, &exp, &case);
+            if let Some(inc) = inc {
+                rep.eval();
+                let (mut x, mut y) = (inc.out.clone(), o.out.clone());
+                x.sort();
+                y.sort();
+                if x != y && !inc.cap_hit && !o.cap_hit {
+                    rep.violation(&format!("C13|new-tick-vs-incremental|multisets-differ|{class}"), &format!("incremental {x:?} new-tick {y:?}"), case());
+                }
+            }
+        }
+        Err(m) => {
+            rep.eval();
+            rep.violation(&format!("C13|new-tick|panic|{class}"), &m, case());
+        }
+    }
+}
+
+// ---------------------------------------------------------------------------------------------
+// (c) multi-tick histories on persisted / cleared state
+
+#[derive(Clone, Debug, Hash)]
+struct Tick {
+    l: Vec<Ev>,
+    r: Vec<Ev>,
+    /// true: `symmetric_hash_join(.., is_new_tick = true)` (what the generated code does);
+    /// false: incremental join on the persisted state
+    replay: bool,
+}
+
+struct History<'a> {
+    ticks: &'a [Tick],
+    lstatic: bool,
+    rstatic: bool,
+    lset: bool,
+    rset: bool,
+}
+
+impl History<'_> {
+    fn json(&self) -> Value {
+        json!({"engine":"mon_pull","prop":"C13","family":"ticks","lset":self.lset,"rset":self.rset,
+               "lstatic":self.lstatic,"rstatic":self.rstatic,
+               "ticks": self.ticks.iter().map(|t| json!({"l":script_json(&t.l),"r":script_json(&t.r),"replay":t.replay})).collect::<Vec<_>>()})
+    }
+}
+
+fn check_history(rep: &mut Reporter, h: &History) {
+    match (h.lset, h.rset) {
+        (true, true) => check_history_t::<HalfSetJoinState<i32, i32, i32>, HalfSetJoinState<i32, i32, i32>>(rep, h),
+        (false, false) => check_history_t::<HalfMultisetJoinState<i32, i32, i32>, HalfMultisetJoinState<i32, i32, i32>>(rep, h),
+        (true, false) => check_history_t::<HalfSetJoinState<i32, i32, i32>, HalfMultisetJoinState<i32, i32, i32>>(rep, h),
+        (false, true) => check_history_t::<HalfMultisetJoinState<i32, i32, i32>, HalfSetJoinState<i32, i32, i32>>(rep, h),
+    }
+}
+
+fn check_history_t<LS, RS>(rep: &mut Reporter, h: &History)
+where
+    LS: HalfJoinState<i32, i32, i32> + Default,
+    RS: HalfJoinState<i32, i32, i32> + Default,
+{
+    let class = format!("{}|{}-{}", cls(h.lset, h.rset), if h.lstatic { "static" } else { "tick" }, if h.rstatic { "static" } else { "tick" });
+    let case = || h.json();
+    rep.count("ticks");
+    let (mut ls, mut rs) = (LS::default(), RS::default());
+    let (mut a, mut b): (Vec<KV>, Vec<KV>) = (vec![], vec![]);
+    let mut all_pairs_once: Vec<Out3> = vec![];
+    let mut interesting = false;
+    for (ti, t) in h.ticks.iter().enumerate() {
+        let before = join(&a, &b);
+        absorb(&mut a, &kvs(&t.l), h.lset);
+        absorb(&mut b, &kvs(&t.r), h.rset);
+        let full = join(&a, &b);
+        // replaying path: everything persisted joined with everything new; incremental path: exactly the
+        // pairs that did not exist before this tick
+        let exp = if t.replay { full.clone() } else { minus(&full, &before) };
+        if ti > 0 && !before.is_empty() && exp.len() > before.len().min(1) {
+            interesting = true;
+        }
+        let n_ev = t.l.len() + t.r.len();
+        let cap = 3 * (n_ev.max(exp.len()) + n_ev) + 16;
+        let res = catch(|| {
+            let sh = Shared::new(&[]);
+            let l = ScriptPull::<KV, true>::new(&sh, 0, &t.l, 0, conv);
+            let r = ScriptPull::<KV, true>::new(&sh, 1, &t.r, 0, conv);
+            if t.replay {
+                run_fn_path(l, r, &mut ls, &mut rs, true, &sh, cap)
+            } else if ti % 2 == 0 {
+                run_state_method(l, r, &mut ls, &mut rs, &sh, cap)
+            } else {
+                run_fn_path(l, r, &mut ls, &mut rs, false, &sh, cap)
+            }
+        });
+        let site = if t.replay { "ticks-replay" } else { "ticks-incremental" };
+        match res {
+            Ok(o) => {
+                if !(J { rep: &mut *rep }).compare(site, &class, &o, &exp, &|| {
+                    let mut v = case();
+                    v["failing_tick"] = json!(ti);
+                    v
+                }) {
+                    return;
+                }
+                if !t.replay {
+                    all_pairs_once.extend(o.out.iter().copied());
+                }
+            }
+            Err(m) => {
+                rep.eval();
+                rep.violation(&format!("C13|{site}|panic|{class}"), &m, case());
+                return;
+            }
+        }
+        // end of tick: `'tick` persistence clears the state (generated code: write_tick_end)
+        if !h.lstatic {
+            <LS as HalfJoinState<i32, i32, i32>>::clear(&mut ls);
+            a.clear();
+        }
+        if !h.rstatic {
+            <RS as HalfJoinState<i32, i32, i32>>::clear(&mut rs);
+            b.clear();
+        }
+    }
+    // fully persisted, purely incremental history: every pair of the final relation exactly once overall
+    if h.lstatic && h.rstatic && h.ticks.iter().all(|t| !t.replay) {
+        rep.eval();
+        all_pairs_once.sort();
+        let fin = join(&a, &b);
+        if all_pairs_once != fin {
+            rep.violation(&format!("C13|ticks-incremental|whole-history-not-exactly-once|{class}"), &format!("final join {fin:?}, emitted over the history {all_pairs_once:?}"), case());
+        }
+    }
+    if interesting {
+        if rep.distinct_count() < DISTINCT_CAP {
+            rep.nontrivial(hash_of(&(h.ticks, h.lstatic, h.rstatic, h.lset, h.rset)));
+        }
+        rep.count("nontrivial_cases_total");
+        rep.sample(|| h.json());
+    }
+}
+
+// ---------------------------------------------------------------------------------------------
+// Workloads
+
+fn recode(s: &[Ev]) -> Vec<Ev> {
+    // alphabet index a in 0..4 -> key a/2, value a%2
+    s.iter().map(|e| match e { Ev::It(a) => Ev::It((a / 2) * 100 + a % 2), Ev::Pend => Ev::Pend }).collect()
+}
+
+fn interleavings(n1: usize, n2: usize) -> Vec<Vec<u8>> {
+    fn rec(a: usize, b: usize, cur: &mut Vec<u8>, out: &mut Vec<Vec<u8>>) {
+        if a == 0 && b == 0 {
+            out.push(cur.clone());
+            return;
+        }
+        if a > 0 {
+            cur.push(0);
+            rec(a - 1, b, cur, out);
+            cur.pop();
+        }
+        if b > 0 {
+            cur.push(1);
+            rec(a, b - 1, cur, out);
+            cur.pop();
+        }
+    }
+    let mut out = vec![];
+    rec(n1, n2, &mut vec![], &mut out);
+    out
+}
+
+fn item_seqs(max_len: usize) -> Vec<Vec<i32>> {
+    all_scripts_over(max_len, 0, 4).iter().map(|s| items_of(&recode(s))).collect()
+}
+
+const KINDS: [(bool, bool); 4] = [(true, true), (false, false), (true, false), (false, true)];
+
+fn random_kv_script(rng: &mut Rng, n_items: usize, keys: usize, vals: usize, dens: u32) -> Vec<Ev> {
+    let mut s = vec![];
+    for _ in 0..n_items {
+        while rng.chance(dens, 100) && s.len() < 4 * n_items + 4 {
+            s.push(Ev::Pend);
+        }
+        s.push(Ev::It((rng.below(keys) * 100 + rng.below(vals)) as i32));
+    }
+    while rng.chance(dens, 100) && s.len() < 4 * n_items + 8 {
+        s.push(Ev::Pend);
+    }
+    s
+}
+
+pub fn run(args: &Args) {
+    let mut rep = Reporter::new("C13", args.seed);
+    if let Some(case) = args.replay_case() {
+        replay(&mut rep, &case);
+        rep.finish("replay", false);
+        return;
+    }
+    let miri = args.tier == Tier::Miri;
+    let mut rng = if miri { args.rng().fork(args.shard.0 as u64 + 1) } else { args.rng() };
+    // Miri: every m-th case (m shrinks with the number of shards), dealt round-robin to the shards
+    let (shard, nshards) = args.shard;
+    let sel = move |idx: usize, m: usize| {
+        let m = (m / nshards.max(1)).max(1);
+        idx % m == 0 && (idx / m) % nshards.max(1) == shard
+    };
+    let thorough = args.tier == Tier::Thorough;
+    let mut idx = 0usize;
+
+    // ---- (a1)+(b): independent scripts, every Pending placement (<= 2 per side)
+    let side_scripts: Vec<Vec<Ev>> = all_scripts_over(args.budget(3, 3, 2), args.budget(2, 2, 1), 4).iter().map(|s| recode(s)).collect();
+    for l in &side_scripts {
+        for r in &side_scripts {
+            for (ki, &(lset, rset)) in KINDS.iter().enumerate() {
+                idx += 1;
+                if miri && !sel(idx, 211) {
+                    continue;
+                }
+                // quick: the two mixed state kinds alternate; thorough: all four on every pair
+                if !thorough && !miri && ki >= 2 && (idx / 4) % 2 != ki - 2 {
+                    continue;
+                }
+                check_single(&mut rep, &Single { fam: "scripts", l, r, global: None, lset, rset });
+            }
+        }
+    }
+
+    // ---- (a2)+(b): gated inputs, every interleaving of the two arrival sequences (+ one stall anywhere)
+    let seqs = item_seqs(args.budget(3, 3, 2));
+    for ls in &seqs {
+        for rs in &seqs {
+            for il in interleavings(ls.len(), rs.len()) {
+                let (mut i, mut j) = (0, 0);
+                let global: Vec<GEv> = il
+                    .iter()
+                    .map(|&s| {
+                        if s == 0 {
+                            i += 1;
+                            GEv::It(0, ls[i - 1])
+                        } else {
+                            j += 1;
+                            GEv::It(1, rs[j - 1])
+                        }
+                    })
+                    .collect();
+                let mut variants = vec![global.clone()];
+                if thorough {
+                    for pos in 0..=global.len() {
+                        let mut g = global.clone();
+                        g.insert(pos, GEv::P);
+                        variants.push(g);
+                    }
+                } else if !global.is_empty() {
+                    let mut g = global.clone();
+                    g.insert(idx % (global.len() + 1), GEv::P);
+                    variants.push(g);
+                }
+                for g in &variants {
+                    let (l, r) = (side_script(g, 0), side_script(g, 1));
+                    for &(lset, rset) in &KINDS {
+                        idx += 1;
+                        if miri && !sel(idx, 397) {
+                            continue;
+                        }
+                        check_single(&mut rep, &Single { fam: "gated", l: &l, r: &r, global: Some(g), lset, rset });
+                    }
+                }
+            }
+        }
+    }
+
+    // ---- (c) multi-tick histories: per tick and side nothing or one of the 4 items; every persistence
+    //      combination x state kinds x {all replaying, all incremental}
+    let n_ticks = args.budget(3, 4, 2);
+    let opts: Vec<Vec<Ev>> = std::iter::once(vec![]).chain((0..4).map(|a| vec![Ev::It((a / 2) * 100 + a % 2)])).collect();
+    let per_tick = opts.len() * opts.len();
+    for nt in 1..=n_ticks {
+        for code in 0..per_tick.pow(nt as u32) {
+            let mut c = code;
+            let mut ticks: Vec<Tick> = vec![];
+            for _ in 0..nt {
+                let t = c % per_tick;
+                c /= per_tick;
+                ticks.push(Tick { l: opts[t / opts.len()].clone(), r: opts[t % opts.len()].clone(), replay: true });
+            }
+            for cfg in 0..32usize {
+                idx += 1;
+                if miri && !sel(idx, 97) {
+                    continue;
+                }
+                let (lstatic, rstatic) = (cfg & 1 != 0, cfg & 2 != 0);
+                let (lset, rset) = KINDS[(cfg >> 2) & 3];
+                let replay = cfg & 16 != 0;
+                for t in &mut ticks {
+                    t.replay = replay;
+                }
+                check_history(&mut rep, &History { ticks: &ticks, lstatic, rstatic, lset, rset });
+            }
+        }
+    }
+    // richer random histories: <= 4 ticks, <= 3 items per side and tick, Pendings, path chosen per tick
+    for _ in 0..args.budget(30_000, 600_000, 40) {
+        let nt = 1 + rng.below(4);
+        let ticks: Vec<Tick> = (0..nt)
+            .map(|_| {
+                let d = rng.below(50) as u32;
+                let (nl, nr) = (rng.below(4), rng.below(4));
+                Tick { l: random_kv_script(&mut rng, nl, 2, 2, d), r: random_kv_script(&mut rng, nr, 2, 2, d), replay: rng.chance(1, 2) }
+            })
+            .collect();
+        let (lset, rset) = *rng.choose(&KINDS);
+        let h = History { ticks: &ticks, lstatic: rng.chance(1, 2), rstatic: rng.chance(1, 2), lset, rset };
+        idx += 1;
+        if miri && !args.in_shard(idx) {
+            continue;
+        }
+        check_history(&mut rep, &h);
+    }
+
+    // ---- random large: 50 keys, up to 200 items in total
+    for _ in 0..args.budget(400, 8_000, 2) {
+        let n = 20 + rng.below(181);
+        let nl = rng.below(n + 1);
+        let (dl, dr) = (rng.below(61) as u32, rng.below(61) as u32);
+        let keys = if rng.chance(1, 4) { 5 } else { 50 };
+        let l = random_kv_script(&mut rng, nl, keys, 4, dl);
+        let r = random_kv_script(&mut rng, n - nl, keys, 4, dr);
+        let (lset, rset) = *rng.choose(&KINDS);
+        idx += 1;
+        if miri && !args.in_shard(idx) {
+            continue;
+        }
+        check_single(&mut rep, &Single { fam: "random", l: &l, r: &r, global: None, lset, rset });
+    }
+
+    if !miri {
+        rep.require(rep.counter("scripts") > 100_000, "fewer than 100000 independent-script cases");
+        rep.require(rep.counter("gated") > 100_000, "fewer than 100000 gated interleaving cases");
+        rep.require(rep.counter("ticks") > 100_000, "fewer than 100000 multi-tick histories");
+        rep.require(rep.counter("random") >= 400, "fewer than 400 large random joins");
+        rep.require(rep.distinct_count() > 10_000, "fewer than 10000 distinct non-trivial joins");
+    }
+    rep.finish(
+        "one-tick joins: all left/right inputs of <=3 items over keys {0,1} x values {0,1} x every placement of <=2 Pendings per side (independent scripts), and every global arrival interleaving of the two sequences through gated inputs (+ one stall at one/every position); each run through the incremental SymmetricHashJoin and through symmetric_hash_join(is_new_tick=true), judged against a nested-loop join (set-deduplicated / multiset per side; all four state combinations) and against each other. Multi-tick: every history of <=3 (quick) / <=4 (thorough) ticks with <=1 new item per side and tick x static/tick persistence per side x state kinds x {replaying, incremental}, plus random histories (<=3 items per side and tick, Pendings, path per tick); random joins with 50 keys / <=200 items. Non-trivial = non-empty result in which some matching key arrives >=2 times on one side (one tick), or a later tick emitting more than one pair on top of a non-empty persisted join (histories); distinct hashes are capped at 2e6 (total in counters.nontrivial_cases_total)",
+        !miri,
+    );
+}
+
+fn replay(rep: &mut Reporter, case: &Value) {
+    let fam = case["family"].as_str().unwrap_or("");
+    let (lset, rset) = (case["lset"].as_bool().unwrap_or(true), case["rset"].as_bool().unwrap_or(true));
+    if fam == "ticks" {
+        let ticks: Vec<Tick> = case["ticks"]
+            .as_array()
+            .map(|a| a.iter().map(|t| Tick { l: parse_script(&t["l"]), r: parse_script(&t["r"]), replay: t["replay"].as_bool().unwrap_or(true) }).collect())
+            .unwrap_or_default();
+        check_history(rep, &History { ticks: &ticks, lstatic: case["lstatic"].as_bool().unwrap_or(false), rstatic: case["rstatic"].as_bool().unwrap_or(false), lset, rset });
+    } else {
+        let (l, r) = (parse_script(&case["l"]), parse_script(&case["r"]));
+        let global = if case["global"].is_array() { Some(parse_global(&case["global"])) } else { None };
+        let fam: &'static str = match fam {
+            "gated" => "gated",
+            "random" => "random",
+            _ => "scripts",
+        };
+        check_single(rep, &Single { fam, l: &l, r: &r, global: global.as_deref(), lset, rset });
+    }
 }
